@@ -185,12 +185,18 @@ def main(tier, seed, replay=None):
             pd += 1
             rep.violation("input", "planted fault %r (lines %s of the text) reported as %s in %r" % (ftext, want_lines, getattr(got, "pos", got), txt),
                           check="planted", fault=ftext, text=txt, want_lines=want_lines)
-        elif callidx is not None:
-            st = " ".join(got.stacktrace)
-            wl = pos[callidx][0]
-            if ("prog.ckl:%d:" % wl) not in st:
+        elif callidx is not None and ("prog.ckl:%d:" % pos[callidx][0]) not in " ".join(got.stacktrace):
+            pd += 1
+            rep.violation("input", "stack trace %r does not name the call at line %d of %r" % (got.stacktrace, pos[callidx][0], txt), check="stack", text=txt, want_line=pos[callidx][0])
+        elif isinstance(got, CklRuntimeError):
+            # every entry of the trace is a call that belongs to this error: in this file, on a line of the planted statement or of the planted call
+            import re as _re
+            allowed = {pos[base + k][0] for k in range(len(fault))} | ({pos[callidx][0]} if callidx is not None else set())
+            bad = [e for e in got.stacktrace if not (_re.search(r" prog\.ckl:(\d+):\d+$", e) and int(_re.search(r" prog\.ckl:(\d+):\d+$", e).group(1)) in allowed)]
+            if bad or len(got.stacktrace) > len(fault) + 1:
                 pd += 1
-                rep.violation("input", "stack trace %r does not name the call at line %d of %r" % (got.stacktrace, wl, txt), check="stack", text=txt, want_line=wl)
+                rep.violation("input", "stack trace %r of the planted fault %r in %r has entries that are no calls of the failing statement (lines %s)" % (
+                    got.stacktrace, ftext, txt, sorted(allowed)), check="stack-extra", text=txt, want_lines=sorted(allowed))
     rep.oblige("%d programs with a planted fault under random layouts: reported file and line are those of the planted token" % nprog, pd == 0,
                "%d wrong" % pd)
     rep.sample({"text": texts[-1][:300]})
